@@ -277,7 +277,7 @@ class AliasFlow(Flow):
                     self._mutation(frozenset(x for x in tg if x != FRESH), stmt, "augmented assignment (in-place extend)")
                 return env
             if isinstance(tgt, ast.Attribute) and self.self_name and isinstance(tgt.value, ast.Name) and tgt.value.id == self.self_name:
-                if container_rhs or isinstance(stmt.op, (ast.BitOr, ast.BitAnd)):
+                if container_rhs or isinstance(stmt.op, (ast.BitOr, ast.BitAnd)) or (isinstance(stmt.op, ast.Add) and self._attr_is_container(tgt.attr)):
                     self._mutation(frozenset(x for x in self.tags(tgt, env) if x != FRESH), stmt, "augmented assignment (in-place extend)")
                 return env
             if isinstance(tgt, (ast.Subscript, ast.Attribute)):
@@ -304,6 +304,21 @@ class AliasFlow(Flow):
 
     def _looks_container(self, name, env):
         return True
+
+    def _attr_is_container(self, attr: str) -> bool:
+        """self.<attr> is assigned a list / set / dict display (or list() / set() / dict()) somewhere in this function: `self.<attr> += value`
+        then extends that object in place - also when the attribute was meanwhile re-bound to an object of the caller"""
+        cache = self.__dict__.setdefault("_container_attrs", None)
+        if cache is None:
+            cache = set()
+            for st in ast.walk(self.f.node):
+                if isinstance(st, ast.Assign) and isinstance(st.value, (ast.List, ast.Set, ast.Dict, ast.ListComp, ast.SetComp, ast.DictComp)) or \
+                        (isinstance(st, ast.Assign) and isinstance(st.value, ast.Call) and (dotted(st.value.func) or "") in ("list", "set", "dict")):
+                    for t in st.targets:
+                        if isinstance(t, ast.Attribute) and isinstance(t.value, ast.Name) and t.value.id == self.self_name:
+                            cache.add(t.attr)
+            self._container_attrs = cache
+        return attr in cache
 
     def refine(self, test, pol, env):
         self._scan_calls(test, env)
